@@ -936,6 +936,8 @@ class Engine:
             if isinstance(o, Obj):
                 if attr in o.fields:
                     return o.fields[attr]
+                if ('Obj', attr) in self.method_handlers:
+                    return BoundMethod(recv, attr)  # an external container modelled by a registered handler
                 cv = inspect.getattr_static(o.cls, attr, None)
                 if cv is None:
                     raise Undecided(f'attribute {attr} of {o.cls.__name__} not set in the symbolic state')
@@ -1505,7 +1507,7 @@ class Engine:
             return
         # 6. repository functions explicitly allowed to be executed by body
         if isinstance(f, types.FunctionType):
-            if f in self.inline or getattr(f, '__module__', '').startswith('vc.'):
+            if f in self.inline or getattr(f, '__module__', '').startswith('vc.') or (f.__name__ == '__init__' and f not in self.contracts):  # constructors are executed by body
                 for s, sig in self.run_function(f, st, args, kwargs):
                     if sig[0] == 'return':
                         yield (OK, s, sig[1])
